@@ -5,15 +5,11 @@ CONSTANT Mode <- Mode3
 CONSTANT Outcome <- OutVal3
 CONSTANT Cancellable <- NoCancel
 CONSTANT CancelAt <- AnyAwait
-CONSTANT MaxStale = 0
-CONSTANT MaySilence = TRUE
+CONSTANT MaxStale = 2
+CONSTANT MaySilence = FALSE
 CONSTANT ConfPerTwice = 2
 CONSTANT FlushAfterConfirm = FALSE
-CONSTANT FlushAt = "acquired"
-INVARIANT TypeOK
-INVARIANT WriteByOwner
-INVARIANT TxnAtomic
-INVARIANT NoCrossTalk
-INVARIANT CleanEnd
-PROPERTY EventuallyAllDone
+CONSTANT FlushAt = "called"
+INVARIANT OwnWindow
 CHECK_DEADLOCK FALSE
+
